@@ -31,7 +31,7 @@ TRUSTED = ["Coq 8.16.1 kernel + vm_compute (primitive floats bit-exact)", "Rust 
 ASSUMPTIONS = ["Rust semantics of Vec/usize as modelled (checked indexing, debug overflow checks)",
                "the totality theorem needs len u <= MAX (= 1000, regenerated): beyond that the code itself returns its iteration-cap error",
                "the sampled cases are where model and code were compared; the theorems are about the model"]
-UNPROVED = ["the size of the float residual u - (q*v + r) is proved in the standard rounding model and at binary64 under finite q, r and a computable no-underflow condition (polydiv_rounded_identity(_float): |e_k| <= gam(2M)(|u_k| + sum|q_i||v_(k-i)|), M = min(len u + 1 - len v, len v); about 1.6e-15 where the search demands 1e-10); NOT proved: that condition for arbitrary inputs (e.g. polydiv [1;1] [1;0] = Ok([inf],[-inf]) is outside it)",
+UNPROVED = ["the size of the float residual u - (q*v + r) is proved in the standard rounding model and at binary64 under finite q, r and a computable no-underflow condition (polydiv_rounded_identity(_float): |e_k| <= gam(2M)(|u_k| + sum|q_i||v_(k-i)|), M = min(len u + 1 - len v, len v); about 1.6e-15 where the search demands 1e-10); NOT proved: that condition for arbitrary inputs (e.g. polydiv [1;1] [1;0] = Ok([inf],[-inf]) is outside it); exactness at binary64 on integer data is proved (polydiv_exact_float: monic or exactly dividing leading coefficient and U(1+V)^(len u - len v + 1) < 2^53: the float division returns the integer quotient and remainder, which satisfy u = q v + r uniquely; Gaussian-integer division in the run form only)",
             "operand non-mutation is a run-time observation of the executor"]
 
 MANIFEST = dict(
